@@ -1,18 +1,46 @@
 (* C18 -- a statement too big for the lookup tables is refused, not corrupted. *)
-From PJ.Model Require Import Base Lookup Terms Encoder.
-From PJ.Proofs Require Import EncoderProofs.
+From PJ.Model Require Import Base Lookup Terms Encoder Streams Spec.
+From PJ.Proofs Require Import EncoderProofs EncLookup EncStream Recency.
 
-(* The guard: as soon as the distinct keys a statement asks of one table exceed its size, the
-   request is refused, before the table is touched. *)
+(* Refuse or be correct, with NO premise on how table sizes relate to the statements: whatever
+   the writer hands out without raising is Valid for the referee and denotes the input. *)
+Theorem C18_refuse_or_correct_triples :
+  forall (o : soptions) (s s' : stream) (d : sdata) (evs : list tev),
+    stream_new TripleStream Generic o = Ok s -> cfg_ok o (st_logical s) ->
+    p_nd (so_params o) = false -> fl_rows (st_flow s) = [] ->
+    triples_stream_frames d s = (s', evs) -> raised evs = None ->
+    run (flat_map f_rows (emitted evs)) = Valid (flat_map event_of_triple (d_stmts d)).
+Proof. exact triples_stream_valid. Qed.
+Print Assumptions C18_refuse_or_correct_triples.
+
+Theorem C18_refuse_or_correct_quads :
+  forall (o : soptions) (s s' : stream) (d : sdata) (evs : list tev),
+    stream_new QuadStream Generic o = Ok s -> cfg_ok o (st_logical s) ->
+    p_nd (so_params o) = false -> fl_rows (st_flow s) = [] ->
+    quads_stream_frames d s = (s', evs) -> raised evs = None ->
+    run (flat_map f_rows (emitted evs)) = Valid (flat_map event_of_quad (d_stmts d)).
+Proof. exact quads_stream_valid. Qed.
+Print Assumptions C18_refuse_or_correct_quads.
+
+(* The mechanism: inside a statement every key already touched keeps its index through any later
+   entry request of the same table (recency + guard), so no reference is clobbered. *)
+Theorem C18_touched_keys_keep_their_index :
+  forall (tb tb' : slenc) (keys keys' : list str) (k : str) (oe : option N) (T : table) (la : N),
+    InvT tb T la -> Wk tb keys ->
+    entry_index tb keys k = Ok (tb', keys', oe) ->
+    (match oe with
+     | Some id => exists T' la', entry id k T la = SOk (T', la') /\ InvT tb' T' la'
+     | None => InvT tb' T la
+     end) /\
+    Wk tb' keys' /\ keys' = set_add k keys /\
+    (forall k', In k' keys -> find str_eqb k' (l_data (e_lookup tb')) = find str_eqb k' (l_data (e_lookup tb))) /\
+    lmax tb' = lmax tb /\ e_last_reused tb' = e_last_reused tb.
+Proof. exact entry_index_spec. Qed.
+Print Assumptions C18_touched_keys_keep_their_index.
+
+(* The guard itself. *)
 Theorem C18_guard_refuses :
   forall (table : slenc) (keys : list str) (k : str),
     lmax table < nlen (set_add k keys) -> entry_index table keys k = Err Conformance.
 Proof. exact guard_refuses. Qed.
 Print Assumptions C18_guard_refuses.
-
-(* Whenever an entry request succeeds the statement's key set still fits the table and holds the key. *)
-Theorem C18_accepted_keys_fit :
-  forall (table : slenc) (keys keys' : list str) (k : str) (t' : slenc) (oe : option N),
-    entry_index table keys k = Ok (t', keys', oe) -> nlen keys' <= lmax table /\ mem_str k keys' = true.
-Proof. exact guard_counts. Qed.
-Print Assumptions C18_accepted_keys_fit.
